@@ -51,3 +51,6 @@ A(M("c16e-r7-count-from-1", "C16", C, "itertools.filterfalse(taken.__contains__,
 A(M("c16e-r7-merge-order", "C16", C, "{**unknotted, **dict(itertools.chain.from_iterable(assignment))}", "{**dict(itertools.chain.from_iterable(assignment)), **unknotted}", "enumeration-fact", **B167))
 A(M("c16e-r7-format-zip", "C16", T3, "        for (chain, sequence), dbn in zip(self.strands_sequences, dbns):\n", "        for (chain, sequence), dbn in zip(self.strands_sequences, dbns[1:] + dbns[:1]):\n", ["mapping-list-fact", "strand-text-fact", "strand-rows"], **B167))
 A(M("c16e-r7-range-silent", ["C16", "C01"], C, "itertools.filterfalse(taken.__contains__, itertools.count())", "(k for k in range(len(component)) if k not in taken)", kind="silent", **B167))
+# ---- a size cap in the printed list (clean tree, tertiary.py): both sides of the wrapper's own threshold are input classes
+A(M("c16e-mapping-stem-cap", "C16", T3, "        dot_brackets = []\n\n        for dot_bracket in self.bpseq.all_dot_brackets:\n", "        if len(self.bpseq.elements[0]) > 25:\n            return [self.dot_bracket]\n        dot_brackets = []\n\n        for dot_bracket in self.bpseq.all_dot_brackets:\n", "mapping-list-fact"))
+A(M("c16e-mapping-stem-log-silent", ["C16", "C06"], T3, "        dot_brackets = []\n\n        for dot_bracket in self.bpseq.all_dot_brackets:\n", "        if len(self.bpseq.elements[0]) > 25:\n            logging.warning(\"many stems: the enumeration may take long\")\n        dot_brackets = []\n\n        for dot_bracket in self.bpseq.all_dot_brackets:\n", kind="silent"))
